@@ -108,34 +108,28 @@ inductive Leaf where
   /-- a string enum without a custom fallback variant -/
   | oneOf (cs : List Str)
 
-/-- The strings a validated string type accepts (`none`: not a pure accept/reject string type). -/
-def Leaf.accepts : Leaf → Option (Str → Bool)
-  | .str => some (fun _ => true)
-  | .userId => some (fun s => okRes (Ids.userIdValidate idExt s))
-  | .eventId => some (fun s => okRes (Ids.eventIdValidate idExt s))
-  | .roomId => some (fun s => okRes (Ids.roomIdValidate s))
-  | .roomAlias => some (fun s => okRes (Ids.roomAliasIdValidate idExt s))
-  | .roomAliasOrEmpty => some (fun s => s.isEmpty || okRes (Ids.roomAliasIdValidate idExt s))
-  | .serverName => some (fun s => okRes (Ids.serverNameValidate idExt s))
-  | .keyId => some (fun s => okRes (Ids.keyIdValidate idExt .signingKeyVersion s))
-  | .roomVersion => some (fun s => okRes (Ids.roomVersionIdValidate s))
-  | .receiptThread => some (fun s => if s.head? == some 36 then okRes (Ids.eventIdValidate idExt s) else true)
-  | .const c => some (fun s => s == c)
-  | .oneOf cs => some (fun s => cs.contains s)
-  | _ => none
-
+/-- What each scalar type reads and writes back. The string types other than `Base64` accept or
+reject and write the accepted string back unchanged (`acceptStr`). -/
 def Leaf.schema : Leaf → Schema
+  | .str => Schema.str (acceptStr (fun _ => true))
   | .int => Schema.int (-maxInt) maxInt
   | .uint => Schema.int 0 maxInt
   | .bool => Schema.bool
   | .float => Schema.float
   | .intLax => Schema.intLax (-maxInt) maxInt parseV1
   | .voip => Schema.voipVersion
+  | .userId => Schema.str (acceptStr (fun s => okRes (Ids.userIdValidate idExt s)))
+  | .eventId => Schema.str (acceptStr (fun s => okRes (Ids.eventIdValidate idExt s)))
+  | .roomId => Schema.str (acceptStr (fun s => okRes (Ids.roomIdValidate s)))
+  | .roomAlias => Schema.str (acceptStr (fun s => okRes (Ids.roomAliasIdValidate idExt s)))
+  | .roomAliasOrEmpty => Schema.str (acceptStr (fun s => s.isEmpty || okRes (Ids.roomAliasIdValidate idExt s)))
+  | .serverName => Schema.str (acceptStr (fun s => okRes (Ids.serverNameValidate idExt s)))
+  | .keyId => Schema.str (acceptStr (fun s => okRes (Ids.keyIdValidate idExt .signingKeyVersion s)))
+  | .roomVersion => Schema.str (acceptStr (fun s => okRes (Ids.roomVersionIdValidate s)))
+  | .receiptThread => Schema.str (acceptStr (fun s => if s.head? == some 36 then okRes (Ids.eventIdValidate idExt s) else true))
   | .base64 => Schema.str base64Norm
-  | l =>
-    match l.accepts with
-    | some p => Schema.str (acceptStr p)
-    | none => Schema.str (fun _ => none)   -- unreachable: every other leaf has `accepts`
+  | .const c => Schema.str (acceptStr (fun s => s == c))
+  | .oneOf cs => Schema.str (acceptStr (fun s => cs.contains s))
 
 def Leaf.ofName : String → Option Leaf
   | "Str" => some .str
